@@ -201,11 +201,12 @@ def analyse_skeleton(I: Interp, pattern: Any, root_role: str = "instr") -> List[
         docv = lift_skeleton(I, doc)
         I.run.user["docv"] = docv
         self_obj = Obj(y2r, {"loaded_file": docv, "macros_from_terminal_filepath": NONE})
-        m1, m2 = y2r.find_method("_get_pattern"), y2r.find_method("_generate_rule_tree")
-        if m1 is None or m2 is None:
-            raise AnalysisError("anchor Yaml2Regex._get_pattern/_generate_rule_tree not found")
+        m1 = y2r.find_method("_get_pattern")
+        if m1 is None:
+            raise AnalysisError("anchor Yaml2Regex._get_pattern not found")
         pats = I.call_func(m1, [], {}, self_obj, None, None)
-        tree = I.call_func(m2, [], {"patterns": pats}, self_obj, None, None)
+        from .models import rule_tree_call
+        tree = rule_tree_call(I, y2r, self_obj, pats)
         if not isinstance(tree, Obj):
             raise AnalysisError(f"rule tree is {tree!r}")
         root = build_info(tree, (), root_role, None)
